@@ -101,6 +101,10 @@ def run_condition(modname, cond, tier, seed, known):
             excl.append(kf["exclude"])
         else:
             rec["notes"].append("listed finding no longer reproduces (not excluded): " + kf["witness"])
+    if any(e.strip() == "True" for e in excl):
+        # the whole condition is a listed finding: nothing is left to search
+        rec.update({"twin": "n/a", "verdict": "known", "violation": None, "excluded": excl, "wall_s": round(time.time() - t0, 2)})
+        return rec
     # 2. twin
     tw = sym(modname, fn, min(timeout, cond.get("twin", 40)), seed, excl, twin=True)
     rec["twin"] = "unreached"
